@@ -314,6 +314,8 @@ fn run(prop_id: &str, tier: &str) -> i32 {
                 inconclusive.push(format!("{}: {}", sub, v["msg"].as_str().unwrap_or("")));
                 continue;
             }
+            // artifacts of a fuzz campaign replay through the corpus-replay sub-check (same target body)
+            let sub = if sub.ends_with("_campaign") { "fuzz_corpus_replay".to_string() } else { sub.clone() };
             findings.push(Finding { sub: sub.clone(), case_text: v["case_text"].as_str().unwrap_or("null").to_string(), msg: v["msg"].as_str().unwrap_or("").to_string(), profile: v["profile"].as_str().unwrap_or("").to_string() });
         }
     }
@@ -321,6 +323,13 @@ fn run(prop_id: &str, tier: &str) -> i32 {
     for (name, _, _) in props::external_about(prop_id) {
         if !merged.subs.contains_key(name) {
             inconclusive.push(format!("the python leg did not report sub-check {}", name));
+        }
+    }
+    if tier == "thorough" {
+        for (name, _, _) in props::external_about_thorough(prop_id) {
+            if !merged.subs.contains_key(name) {
+                inconclusive.push(format!("the fuzz campaign did not report sub-check {}", name));
+            }
         }
     }
     // ---- report
@@ -432,6 +441,11 @@ fn write_evidence(root: &Path, prop: &runner::Property, tier: &str, seed: u64, m
     }
     for (name, about, nt) in props::external_about(prop.id) {
         rule_parts.push(format!("[{}] {} Non-trivial: {}", name, about, nt));
+    }
+    if tier == "thorough" {
+        for (name, about, nt) in props::external_about_thorough(prop.id) {
+            rule_parts.push(format!("[{}] {} Non-trivial: {}", name, about, nt));
+        }
     }
     // sub-checks reported by external workers (python) that are not in the Rust table
     for (name, m) in &merged.subs {
